@@ -16,6 +16,7 @@ type zzC18Env struct {
 	legacy      [][]*ServerSession
 	subscribed  []map[*ServerSession]jsonrpc.ID
 	methods     []string
+	clientNotified [][]*ClientSession
 }
 
 var zzC18 *zzC18Env
@@ -509,4 +510,89 @@ func zzC18CacheKinds() {
 		vReach("sequential")
 	}
 	vReach("end")
+}
+
+// ---------------------------------------------------------------- C18: the capability gates
+//
+// "...and none when the capability is disabled": for every list-changed notification kind and every way the
+// capability can be configured (no capabilities given, the section absent, listChanged true or false; on the client the
+// deprecated Roots value and RootsV2, RootsV2 taking precedence), shouldSendListChangedNotification says yes exactly
+// when the notification is not explicitly disabled — and a feature change then reaches the sessions, or nobody.
+func zzC18CapabilityGates() {
+	if vBool("serverSide") {
+		srv := NewServer(&Implementation{Name: "s", Version: "v"}, nil)
+		kinds := []string{notificationToolListChanged, notificationPromptListChanged, notificationResourceListChanged}
+		k := vChoice("notification", 3)
+		cfg := vChoice("capabilities", 4) // 0 none given, 1 section absent, 2 listChanged false, 3 listChanged true
+		on := vBool("otherSectionsEnabled")
+		if cfg > 0 {
+			caps := &ServerCapabilities{}
+			// the other two sections are configured independently and must not matter
+			if k != 0 {
+				caps.Tools = &ToolCapabilities{ListChanged: on}
+			}
+			if k != 1 {
+				caps.Prompts = &PromptCapabilities{ListChanged: on}
+			}
+			if k != 2 {
+				caps.Resources = &ResourceCapabilities{ListChanged: on}
+			}
+			if cfg >= 2 {
+				switch k {
+				case 0:
+					caps.Tools = &ToolCapabilities{ListChanged: cfg == 3}
+				case 1:
+					caps.Prompts = &PromptCapabilities{ListChanged: cfg == 3}
+				case 2:
+					caps.Resources = &ResourceCapabilities{ListChanged: cfg == 3}
+				}
+			}
+			srv.opts.Capabilities = caps
+		}
+		got := srv.shouldSendListChangedNotification(kinds[k])
+		vAssert(got == (cfg != 2), "C18.gate.server-notifies-unless-explicitly-disabled")
+		if cfg == 2 {
+			vReach("disabled")
+		}
+		vReach("end")
+		return
+	}
+	c := NewClient(&Implementation{Name: "c", Version: "v"}, nil)
+	cfg := vChoice("capabilities", 5) // 0 none given, 1 only deprecated Roots false, 2 deprecated Roots true, 3 RootsV2 false (Roots true), 4 RootsV2 true (Roots false)
+	switch cfg {
+	case 1:
+		c.opts.Capabilities = &ClientCapabilities{}
+	case 2:
+		caps := &ClientCapabilities{}
+		caps.Roots.ListChanged = true
+		c.opts.Capabilities = caps
+	case 3:
+		caps := &ClientCapabilities{RootsV2: &RootCapabilities{ListChanged: false}}
+		caps.Roots.ListChanged = true
+		c.opts.Capabilities = caps
+	case 4:
+		c.opts.Capabilities = &ClientCapabilities{RootsV2: &RootCapabilities{ListChanged: true}}
+	}
+	want := cfg == 0 || cfg == 2 || cfg == 4
+	vAssert(c.shouldSendListChangedNotification(notificationRootsListChanged) == want, "C18.gate.client-notifies-unless-explicitly-disabled")
+	// and the change itself: AddRoots notifies the connected sessions iff the gate says so
+	cs := &ClientSession{client: c}
+	c.sessions = []*ClientSession{cs}
+	zzC18 = &zzC18Env{}
+	c.AddRoots(&Root{URI: "file:///r"})
+	if want {
+		vAssert(len(zzC18.clientNotified) == 1 && len(zzC18.clientNotified[0]) == 1 && zzC18.clientNotified[0][0] == cs, "C18.gate.roots-change-notifies-every-session")
+	} else {
+		n := 0
+		for _, s := range zzC18.clientNotified {
+			n += len(s)
+		}
+		vAssert(n == 0, "C18.gate.disabled-capability-notifies-nobody")
+		vReach("disabled")
+	}
+	vReach("end")
+}
+
+func zzNotifyClientSessions(sessions []*ClientSession, method string, params Params, logger *slog.Logger) {
+	zzC18.clientNotified = append(zzC18.clientNotified, sessions)
 }
